@@ -135,8 +135,10 @@ let leader_work j (r : nrec) =
     done;
     let n = node j in
     if r.commiti > int_ n.commit then begin
-      let glen = List.length n.log in
-      if not (ackedb !st n.cur (nat glen) (nat j)) then ignore (try_label (L_Ack (nat j, nat glen)));
+      (* the leader counts itself: it vouches for its own log up to the index it commits (not beyond:
+         later entries may not be persisted yet) *)
+      let k = min r.commiti (List.length n.log) in
+      if not (ackedb !st n.cur (nat k) (nat j)) then ignore (try_label (L_Ack (nat j, nat k)));
       ignore (try_label (L_AdvanceCommit (nat j, nat r.commiti)))
     end
   end
